@@ -38,6 +38,9 @@ mod loop_mon;
 mod systemd_mon;
 mod keytable;
 mod wire_mon;
+mod refexpand;
+mod convert_mon;
+mod load_mon;
 
 use std::collections::HashMap;
 
@@ -63,6 +66,8 @@ fn main() {
     "loop" => loop_mon::run(&opts),
     "systemd" => systemd_mon::run(&opts),
     "wire" => wire_mon::run(&opts),
+    "convert" => convert_mon::run(&opts),
+    "load" => load_mon::run(&opts),
     "replay" => common::replay(&opts),
     "merge" => common::merge_distinct(&args[2..].to_vec()),
     _ => usage()
